@@ -90,6 +90,19 @@ def execute(sc):
                 ctl.log('FuncEnd', n=n, how='cancel')
             raise
 
+    _orig_log = ctl.log
+
+    def log_with_proj(e, **kw):
+        d = _orig_log(e, **kw)
+        b = state.get('buf')
+        if b is not None and e in ('Submit', 'Produced', 'ProducerDone', 'FuncStart', 'FuncEnd', 'WaitCall', 'WaitRet'):
+            try:
+                d['st'] = {'q': b.q.qsize(), 'flag': bool(b.event.is_set())}
+            except Exception:
+                pass
+        return d
+    ctl.log = log_with_proj
+
     def make_buffer():
         form = sc.get('form', 'direct')
         if form == 'direct':
